@@ -251,12 +251,33 @@ func rpSame(a, b []rpSeg) bool {
 	if len(a) != len(b) {
 		return false
 	}
+	// floating-point tolerance: 1e-9 absolute plus 1e-12 of the largest coordinate of the path (a relative coordinate
+	// next to an absolute one of 1e100 cannot be more exact than the float64 sum a renderer computes)
+	scale := 0.0
+	for _, l := range [2][]rpSeg{a, b} {
+		for i := range l {
+			for k := 0; k < 7; k++ {
+				v := l[i].p[k]
+				if v < 0 {
+					v = -v
+				}
+				if v > scale {
+					scale = v
+				}
+			}
+		}
+	}
+	tol := 1e-9 + 1e-12*scale
 	for i := range a {
 		if a[i].k != b[i].k {
 			return false
 		}
 		for k := 0; k < 7; k++ {
-			if !rpNear(a[i].p[k], b[i].p[k]) {
+			d := a[i].p[k] - b[i].p[k]
+			if d < 0 {
+				d = -d
+			}
+			if !(d <= tol) {
 				return false
 			}
 		}
